@@ -201,7 +201,21 @@ func caseRand(seed int64, prop string, idx int64) *Rand {
 func runCase(p *Property, c *Ctx) (o Outcome) {
 	defer func() {
 		if r := recover(); r != nil {
-			o = Outcome{Status: Violated, Detail: fmt.Sprintf("monitor or library panicked outside a guarded call: %v\n%s", r, debug.Stack())}
+			st := string(debug.Stack())
+			// whose panic is it? The frames between the panic and this function tell: if none of them belongs to the
+			// library, the monitor's own code failed (a defect of the harness: inconclusive, never an alarm)
+			where := st
+			if i := strings.Index(where, "panic("); i >= 0 {
+				where = where[i:]
+			}
+			if j := strings.Index(where, "fw.runCase("); j >= 0 {
+				where = where[:j]
+			}
+			if strings.Contains(where, "github.com/asticode/go-astisub") || strings.Contains(where, "github.com/asticode/go-astits") || strings.Contains(where, "github.com/asticode/go-astikit") {
+				o = Outcome{Status: Violated, Detail: fmt.Sprintf("the library panicked outside a guarded call: %v\n%s", r, st)}
+			} else {
+				o = Outcome{Status: Inconclusive, Detail: fmt.Sprintf("the monitor's own code panicked (no library frame on the stack: a defect of the harness, nothing is concluded about the library): %v\n%s", r, st)}
+			}
 		}
 	}()
 	return p.Run(c)
